@@ -25,6 +25,7 @@ static int        aio_done[NAIO];  // set by callback
 static int        aio_rv[NAIO];
 static nng_msg   *aio_msg[NAIO];
 static nni_mtx    cb_mtx;
+extern void      nng_verif_clock_advance(uint64_t);
 static uint32_t   rids[256];
 static int        nrids;
 
@@ -450,6 +451,8 @@ main(void)
 			} else {
 				rv = NNG_EINVAL;
 			}
+		} else if (strcmp(op, "advance") == 0) {
+			nng_verif_clock_advance((uint64_t) atoll(tok[1]));
 		} else if (strcmp(op, "sleep") == 0) {
 			nng_msleep(atoi(tok[1]));
 		} else if (strcmp(op, "poll") == 0) {
